@@ -399,7 +399,7 @@ func init() {
 		ID: "C13",
 		NumBatches: func(tier string, seed int64) int {
 			if tier == "thorough" {
-				return 4096
+				return 16384
 			}
 			return 512
 		},
